@@ -23,7 +23,7 @@ FLAVOURS = {
     'tsan': dict(cc='gcc', cxx='g++', cflags=['-O1', '-g', '-fsanitize=thread']),
     'cov': dict(cc='gcc', cxx='g++', cflags=['-O0', '-g', '--coverage']),
     'fuzz': dict(cc='clang', cxx='clang++', cflags=['-O1', '-g', '-fno-omit-frame-pointer',
-                                   '-fsanitize=fuzzer-no-link,address,undefined',
+                                   '-fsanitize=fuzzer-no-link,address,undefined', '-fno-sanitize=nonnull-attribute',
                                    '-fno-sanitize-recover=all']),
 }
 CONFIGS = ('shipped', 'kissel')
@@ -314,7 +314,7 @@ def harness(config, flavour, name='xrlmon', extra_src=(), extra_flags=(), cxx=Fa
         comp = L['cxx'] if cxx else L['cc']
         flags = list(L['cflags'])
         if flavour == 'fuzz':
-            flags = [f.replace('fuzzer-no-link', 'fuzzer') for f in flags]
+            flags = [f.replace('fuzzer-no-link', 'fuzzer') for f in flags] + ['-Wno-unused-command-line-argument']
         cmd = [comp] + flags + ['-I' + st, '-I' + HARNESS, '-I' + os.path.join(REPO, 'cplusplus')] + list(extra_flags) + \
               [src] + [os.path.join(HARNESS, s) for s in extra_src] + \
               [L['a'], '-o', os.path.join(d, name), '-lm', '-lpthread', '-ldl']
